@@ -17,7 +17,7 @@ RULE = ("cases = (direction, frame length, frame bytes, device id, virtual wall-
         "encode: msmart's packet must parse under the independent reference (marker, LE length == size, 40-byte header, "
         "id at 20..27 LE, PKCS7/AES-128-ECB under md5(SIGN_KEY), keyed MD5) to the identical frame and id; "
         "decode: a reference-built packet with arbitrary header filler must decode to the identical frame; "
-        "wire: the same through LAN.send on a simulated V2 connection, including retransmissions after the device dropped the first one or two transmissions. distinct = distinct (direction,len,id,instant,frame hash); "
+        "wire: the same through LAN.send on a simulated V2 connection, including retransmissions after the device dropped the first one or two transmissions; pair: 2-4 LAN objects with their own devices at overlapping times, some retransmitting after another object encoded; bulk: 70000 (thorough 140000) packets encoded in one process, each parsed by the reference; a packet returned by encode is unchanged by later encodes. distinct = distinct (direction,len,id,instant,frame hash); "
         "every case is non-trivial (a full encode/parse or build/decode)")
 ASSUMPTIONS = ["reference V2 implementation in mv/ref/v2.py is a correct reading of the packet overview",
                "AES block primitive = pycryptodome raw ECB, cross-checked against a pure-Python AES and openssl at setup",
@@ -66,6 +66,12 @@ def generate(ctx, rng):
     for j in range(4 if ctx.tier == "quick" else 60):
         yield ("wire-session", j), {"kind": "wire-session", "frame": b"", "id": rng.choice(BOUNDARY_IDS), "n": 300, "sseed": rng.getrandbits(32),
                                     "epoch": _rand_epoch(rng)}
+    # a long-running process: more packets than any 16-bit counter holds, all in this process
+    yield ("bulk", 0), {"kind": "bulk", "frame": b"", "id": 1, "n": 70000 if ctx.tier == "quick" else 140000, "sseed": rng.getrandbits(32)}
+    # two LAN objects (two devices) working at the same time; one of them has to retransmit
+    for j in range(40 if ctx.tier == "quick" else 2000):
+        yield ("pair", j), {"kind": "pair", "frame": b"", "id": 1, "sseed": rng.getrandbits(32), "n": rng.randint(2, 4),
+                            "drops": [rng.choice([0, 1, 2]) for _ in range(4)], "offsets": [rng.choice([0.0, 0.3, 0.5, 1.9, 2.1, 2.5]) for _ in range(4)]}
     for j in range(n_wire):
         L = j % 256 if j < 256 else rng.randint(0, 255)
         nresp = rng.choice([1, 1, 2, 3])
@@ -110,6 +116,91 @@ def _wire_session(ctx, case):
             break
 
 
+_PREV = [None, None]
+
+
+def _bulk(ctx, case):
+    """n packets encoded in one process (device ids and frame lengths cycling), each parsed by the reference."""
+    import random
+    r = random.Random(case["sseed"])
+    ids = [r.getrandbits(48) for _ in range(3)]
+    vloop.set_active(None, _epoch((2024, 5, 5, 5, 5, 5, 5)))
+    bad = 0
+    for i in range(case["n"]):
+        frame = bytes([i & 0xFF, (i >> 8) & 0xFF]) * (i % 18)
+        did = ids[i % 3]
+        try:
+            pkt = _Packet.encode(did, frame)
+            info = v2.parse(bytes(pkt))
+            ok = info["frame"] == frame and info["device_id"] == did
+            why = "parses to a different frame/id"
+        except Exception as e:  # noqa: BLE001
+            ok, why = False, f"{type(e).__name__}: {e}"
+        if not ok:
+            bad += 1
+            ctx.violation("bulk-encode", f"packet number {i + 1} encoded in this process: {why}", case)
+            if bad > 3:
+                break
+    ctx.count(("bulk", case["n"]), kind="bulk-run")
+    ctx.bump("bulk-packets-encoded", case["n"])
+
+
+def _pair(ctx, case):
+    """Several LAN objects talking to their own devices at overlapping times; some transmissions are dropped so that a
+    LAN retransmits after another LAN has encoded its own packet."""
+    import asyncio
+    import random
+    r = random.Random(case["sseed"])
+    net = H.new_net()
+    n = case["n"]
+    devs, seen, frames, ids = [], [], [], []
+    for k in range(n):
+        did = r.getrandbits(r.choice([16, 40, 48, 64]))
+        dev = SimDevice(net, host=f"10.2.0.{k + 1}", version=2, device_id=did)
+        log = []
+
+        def on_exchange(conn, req, packets, meta, log=log, k=k, did=did):
+            log.append((req, meta["v2"]["device_id"]))
+            if len(log) <= case["drops"][k]:
+                return []
+            return [(0, v2.build(req[::-1], did))]
+
+        dev.on_exchange = on_exchange
+        devs.append(dev)
+        seen.append(log)
+        ids.append(did)
+        frames.append(r.randbytes(r.choice([0, 5, 16, 33, 70])))
+    got = [None] * n
+
+    async def one(k):
+        await asyncio.sleep(case["offsets"][k])
+        lan = LAN(devs[k].host, devs[k].port, ids[k])
+        got[k] = await lan.send(frames[k])
+
+    async def go(loop):
+        await asyncio.gather(*[one(k) for k in range(n)])
+
+    key = ("pair", case["sseed"])
+    try:
+        H.run_virtual(go, net)
+    except Exception as e:  # noqa: BLE001
+        ctx.count(key, kind="pair-raised")
+        ctx.violation("wire-raises", f"concurrent LAN objects: {type(e).__name__}: {e}", case)
+        return
+    ctx.count(key, kind="pair", sample={k: case[k] for k in ("n", "drops", "offsets")})
+    for k in range(n):
+        for i, sn in enumerate(seen[k]):
+            if sn != (frames[k], ids[k]):
+                ctx.violation("wire-request-mismatch" if i == 0 else "wire-retransmission-mismatch",
+                              f"device {k} transmission {i} decodes to another frame/id than its LAN object sent "
+                              f"({'another LAN object\'s' if sn in [(frames[j], ids[j]) for j in range(n) if j != k] else 'unknown'})", case)
+                break
+        if len(seen[k]) != case["drops"][k] + 1:
+            ctx.violation("wire-transmission-count", f"device {k}: {len(seen[k])} well-formed transmissions, expected {case['drops'][k] + 1}", case)
+        if [bytes(x) for x in (got[k] or [])] != [frames[k][::-1]]:
+            ctx.violation("wire-response-mismatch", f"LAN object {k} returned different frames than its device sent", case)
+
+
 def _epoch(ep):
     return dt.datetime(*ep, tzinfo=dt.timezone.utc)
 
@@ -127,6 +218,10 @@ def run_case(ctx, case):
             ctx.violation("encode-raises", f"_Packet.encode raised {type(e).__name__}: {e}", case)
             return
         ctx.count(("enc", len(frame), did, tuple(case["epoch"]), hash(frame)), kind="enc", sample=case)
+        # value semantics: the packet returned by the previous encode is still what it was
+        if _PREV[0] is not None and bytes(_PREV[0]) != _PREV[1]:
+            ctx.violation("encode-aliases-earlier-packet", "a later encode changed the packet returned by an earlier one", case)
+        _PREV[0], _PREV[1] = pkt, bytes(pkt)
         try:
             info = v2.parse(pkt)
         except RefError as e:
@@ -153,6 +248,10 @@ def run_case(ctx, case):
                           {"packet": pkt, "got": bytes(got)})
     elif kind == "wire-session":
         _wire_session(ctx, case)
+    elif kind == "bulk":
+        _bulk(ctx, case)
+    elif kind == "pair":
+        _pair(ctx, case)
     else:
         _wire(ctx, case, frame, did)
 
